@@ -45,7 +45,7 @@ def gen_spec(rng, family=None):
         p["n"] = rng.randint(2, 12) if family not in ("soft_cells_far", "soft_cells_veto") else rng.randint(2, 9)
         p["potential"] = rng.choice(["inverse_power", "inverse_power", "lennard_jones"]) if family == "soft" else "inverse_power"
         p["power"] = rng.choice([1, 2, 6, 12])
-        p["prefactor"] = rng.choice([1e-3, 1e-2, 0.1, 1.0]) * (-1 if rng.random() < 0.15 and family == "soft" else 1)
+        p["prefactor"] = rng.choice([1e-3, 1e-2, 0.1, 1.0])   # repulsive only: an attractive inverse power collapses (Zeno)
         p["sigma"] = rng.choice([0.1, 0.2]) * min(lengths)
         p["initial_active"] = rng.randrange(p["n"])
         # start from a jittered lattice: uniformly random starts put pairs arbitrarily close, where steep potentials reach
